@@ -336,6 +336,9 @@ func genMsg(r *rand.Rand, n int, flavour string) []string {
 			if d, ok := reheadProtected(p.data); ok {
 				out = append(out, p.consumeLine(d, p.ext, p.pubKeys()))
 			}
+			if d, ok := reheadPayload(p.data); ok && p.mode != "raw" && p.mode != "rawmsg" {
+				out = append(out, p.consumeLine(d, p.ext, p.pubKeys()))
+			}
 			if p.kind == "sign" {
 				if d, ok := extendLaterSignerBucket(p.data); ok {
 					out = append(out, p.consumeLine(d, p.ext, p.pubKeys()))
@@ -657,6 +660,25 @@ func reheadProtected(data []byte) ([]byte, bool) {
 	}
 	np := append([]byte{0xb8, pc[0] - 0xa0}, pc[1:]...)
 	return replaceSpan(data, spans[0], bstrItem(np)), true
+}
+
+// reheadPayload: the payload member re-encoded with a non-shortest head on its content (a map, an array or a byte string
+// — what a typed payload is on the wire): the same value for a typed reader, other octets under the signature / tag
+func reheadPayload(data []byte) ([]byte, bool) {
+	_, spans := topMembers(data)
+	if len(spans) < 4 {
+		return data, false
+	}
+	pc, ok := bstrContent(data[spans[2][0]:spans[2][1]])
+	if !ok || len(pc) == 0 {
+		return data, false
+	}
+	mt, ai := pc[0]>>5, pc[0]&0x1f
+	if (mt != 5 && mt != 4 && mt != 2) || ai > 23 {
+		return data, false
+	}
+	np := append([]byte{mt<<5 | 24, ai}, pc[1:]...)
+	return replaceSpan(data, spans[2], bstrItem(np)), true
 }
 
 // extendLaterSignerBucket: the last signature entry of a COSE_Sign keeps its signature and unprotected bucket while its
